@@ -281,9 +281,14 @@ example : 20 ≤ structGuards.length ∧ structGuards.any (fun s => s.readExtent
 /-- pe.c string walks `remaining = <generated bound>; strnlen((char*)(pe->data + offset), remaining)` (export / DLL names): the walk cannot leave the
     file (`offset` is a result of pe_rva_to_offset, hence `≤ data_size`). -/
 theorem pe_strnlen_walk_in_file (sz off : BitVec 64) (ho : off.toNat ≤ sz.toNat) :
-    off.toNat + (pe_strnlen_bound sz off).toNat ≤ sz.toNat := by
-  simp only [pe_strnlen_bound, BitVec.toNat_sub]
+    ∀ b ∈ pe_strnlen_bounds sz off, off.toNat + b.toNat ≤ sz.toNat := by
+  intro b hb
+  simp only [pe_strnlen_bounds, List.mem_cons, List.mem_nil_iff, or_false] at hb
+  rcases hb with rfl
+  simp only [BitVec.toNat_sub]
   omega
+
+example : (pe_strnlen_bounds 100#64 40#64) = [60#64] := by decide
 
 /-- Mach-O load-command walk: every command handled by the loop has its 8-byte header and its whole
     `cmdsize` extent inside the file, makes progress ≥ 8, for all `cmdsize` streams and all fuel.
